@@ -450,6 +450,9 @@ def enc_def(sd):
     parts.append(str(len(pts)))
     parts += [enc_str(t) for t in pts]
     parts.append("1" if sd.frontmatter else "0")
+    req = [n for n, fd in sd.frontmatter.items() if fd.required]
+    parts.append(str(len(req)))
+    parts += [enc_str(n) for n in req]
     return " ".join(parts)
 
 
@@ -489,8 +492,11 @@ def model_line(doc, sd, builtin, name):
     tstrs = [t for t in ([getattr(active, "default_target", None)] if active else []) if t]
     extra = "".join(sorted({c for t in tstrs for c in t if ord(c) >= 128 and c.isspace()}))
     fm = []
-    if active is not None and active.frontmatter:
-        fm = [(e.code, e.field_path) for e in validate_frontmatter(doc.raw_frontmatter, active)]
+    raw = doc.raw_frontmatter
+    if active is not None and active.frontmatter and raw is not None and raw.strip():
+        # oracle only for frontmatter that is neither absent nor blank: the absent branch and its test are part of the model
+        fm = [(e.code, e.field_path) for e in validate_frontmatter(raw, active)]
+    extra += "".join(sorted({c for c in (raw or "") if ord(c) >= 128 and c.isspace()} - set(extra)))
     fmtoks = [str(len(fm))] + [x for c, p in fm for x in (enc_str(c), enc_str(p))]
     bname = enc_str(name) if builtin is not None else "~"
     return " ".join(["all", bname, enc_def(sd), " ".join(fltab), orcs, enc_str(extra), " ".join(fmtoks), astcodec.enc_doc(nd)])
@@ -1083,6 +1089,23 @@ def run_corpus(ctx, root):
         texts = list(rec["texts"])
         if rec.get("add_canonical"):
             texts.append(tool_obs(texts[0], name)[1])
+        if rec.get("all_surfaces"):          # every profile, Validator API, octave_validate, octave_write on every text
+            all_obs = []
+            for t in texts:
+                o, problems, *_ = observe_text(t, name, 0, root, set(PROFILES))
+                all_obs.append(o)
+                ctx.count(len(o))
+                for surface, what in problems:
+                    ctx.property_failure({"corpus": fname, "schema": rec.get("schema_text"), "schema_name": name, "text": t, "surface": surface},
+                                         "corpus case: %s: %s" % (surface, what))
+            for t, o in zip(texts[1:], all_obs[1:]):
+                for k in o:
+                    if k.startswith("write") and (o[k][0] != "success" or all_obs[0][k][0] != "success"):
+                        continue
+                    if o[k] != all_obs[0][k]:
+                        ctx.property_failure({"corpus": fname, "schema": rec.get("schema_text"), "schema_name": name, "surface": k,
+                                              "text_a": texts[0], "text_b": t, "observed_a": all_obs[0][k], "observed_b": o[k]},
+                                             "corpus case: %s: the texts of one document are validated differently" % k.split(":")[0])
         observed = [tool_obs(t, name, rec.get("profile", "STANDARD"))[0] for t in texts]
         ctx.count(len(texts))
         differs = any(o != observed[0] for o in observed[1:])
